@@ -1,6 +1,6 @@
 SPECIFICATION MCSpec
-CONSTANTS MaxIn = 2  MaxOps = 3  MidRunChunks = TRUE  Bugs = {}
- Encs = {"stream", "mt", "raw", "block"}  Grants = {"one", "big"}  Checks = {"crc", "none"}  BSizes = {0, 1}
+CONSTANTS MaxIn = 1  MaxOps = 3  MidRunChunks = TRUE  TinyInput = TRUE  Bugs = {}
+ Encs = {"stream", "mt", "raw", "block"}  Grants = {"big"}  Checks = {"crc"}  BSizes = {0, 1}
 VIEW MCView
 INVARIANTS TypeOK NotBad DecodableLeGiven NoEmptyBlock SeqAgrees
 PROPERTY Contract
